@@ -24,7 +24,7 @@ static int nM;
 static object_t *A, *B;
 static int B_alive = 1;
 static long T;                  /* virtual now */
-static int depth, selftest;
+static int depth, selftest, shared;
 static int errors_expected;
 static int cb_owner;             /* owner of the callback whose script entries follow in the log */
 
@@ -92,6 +92,53 @@ static int reserve_child (ent *e) {
   return c->id;
 }
 
+
+/* shared-name mode: remove_call_out("cbs") / find_call_out("cbs") may pick ANY pending string-named call_out of the
+ * calling object (the statement does not say which).  The oracle: exactly one candidate disappears and the value
+ * returned is that entry's time remaining; with no candidate the answer is -1 and nothing disappears. */
+static int is_candidate (ent *m, int owner) { return m->pending && !m->fp && m->owner == owner; }
+
+static int owed;                /* removals inside the running sweep whose victim is one of the entries flagged `maybe` */
+static int maybe[MAXE];
+
+static void resolve_shared_remove (int owner, long ret, const long *probe, const char *key) {
+  /* an entry overdue by exactly one second has time left -1, which is also "not found": such a candidate is ambiguous */
+  int ncand = 0, gone = -1, ngone = 0, namb = 0;
+  for (int i = 0; i < nM; i++) if (is_candidate (&M[i], owner)) {
+    ncand++;
+    if (probe[i] != -1) continue;
+    if (M[i].due - T == -1) namb++; else { gone = i; ngone++; }
+  }
+  if (!ncand) { if (ret != -1) fail_hist (key, "remove_call_out(shared name) returned %ld with nothing pending under that name", ret); return; }
+  if (ngone == 1) {
+    if (ret != M[gone].due - T) fail_hist (key, "remove_call_out(shared name) removed #%d (left %ld) but returned %ld", gone, M[gone].due - T, ret);
+    M[gone].pending = 0;
+    return;
+  }
+  if (ngone == 0 && namb > 0 && ret == -1) {      /* one of the ambiguous ones went: the end of the sweep tells which */
+    for (int i = 0; i < nM; i++) if (is_candidate (&M[i], owner) && probe[i] == -1 && M[i].due - T == -1) maybe[i] = 1;
+    owed++;
+    return;
+  }
+  fail_hist ("C10:remove-by-name-removed-wrong-number", "remove_call_out(shared name) returned %ld and made %d of %d pending entries disappear", ret, ngone, ncand);
+  for (int i = 0; i < nM; i++) if (is_candidate (&M[i], owner) && probe[i] == -1 && M[i].due - T != -1) M[i].pending = 0;
+}
+
+/* end of a sweep: of the entries flagged `maybe`, exactly `owed` must not have fired */
+static void settle_maybe (void) {
+  int left = 0;
+  for (int i = 0; i < nM; i++) if (maybe[i] && M[i].pending && M[i].due <= T) left++;
+  if (left != owed) fail_hist ("C10:remove-by-name-removed-wrong-number", "%d by-name removals inside the sweep, but %d of the overdue candidates did not fire", owed, left);
+  for (int i = 0; i < nM; i++) { if (maybe[i] && M[i].pending && M[i].due <= T) M[i].pending = 0; maybe[i] = 0; }
+  owed = 0;
+}
+
+static void get_probe (long *probe) {
+  for (int i = 0; i < MAXE; i++) probe[i] = -1;
+  svalue_t *r = hx_apply (A, "probe", 0);
+  if (r && r->type == T_ARRAY) for (int i = 0; i < r->u.arr->size && i < MAXE; i++) probe[i] = (long) r->u.arr->item[i].u.number;
+}
+
 static void check_finds (const char *when) {
   /* find_call_out by handle and by name must report due - now for every pending entry, -1 otherwise */
   for (int i = 0; i < nM; i++) {
@@ -105,6 +152,12 @@ static void check_finds (const char *when) {
     if (!e->fp) {
       push_number (e->id);
       r = call_int (owner_ob (e->owner), "findn", 1);
+      if (shared) {             /* any pending candidate's time left, or -1 if there is none */
+        int ok = 0, ncand = 0;
+        for (int j = 0; j < nM; j++) if (is_candidate (&M[j], e->owner)) { ncand++; if (r == M[j].due - T) ok = 1; }
+        if (!ncand) ok = r == -1;
+        if (!ok) fail_hist ("C10:find-by-name-wrong-time", "%s: find_call_out(shared name) = %ld matches no pending entry of the object", when, r);
+      } else
       if (r != want) fail_hist ("C10:find-by-name-wrong-time", "%s: find_call_out(\"cb%d\") = %ld, expected %ld", when, e->id, r, want);
     }
   }
@@ -153,6 +206,13 @@ static void process_log (int in_tick) {
         ent *m = &M[id];
         /* by name: only the caller's own string-named call_outs can be found */
         int byname = !strcmp (what, "cb-rmn");
+        if (byname && shared) {
+          long probe[MAXE]; for (int j = 0; j < MAXE; j++) probe[j] = -1;
+          if (e->size > 3 && e->item[3].type == T_ARRAY)
+            for (int j = 0; j < e->item[3].u.arr->size && j < MAXE; j++) probe[j] = (long) e->item[3].u.arr->item[j].u.number;
+          resolve_shared_remove (cb_owner, ret, probe, "C10:remove-in-callback-wrong-time");
+          continue;
+        }
         int findable = m->pending && !(byname && (m->fp || m->owner != cb_owner));
         long want = findable ? m->due - T : -1;
         if (ret != want) fail_hist ("C10:remove-in-callback-wrong-time", "%s(#%d) inside a callback returned %ld, expected %ld", what, id, ret, want);
@@ -195,6 +255,7 @@ static void do_tick (long s, int hbco_d) {
   }
   pop_context (&econ);
   process_log (1);
+  if (shared) settle_maybe ();
   /* everything due must have fired */
   for (int i = 0; i < nM; i++)
     if (M[i].pending && M[i].due <= T && !(selftest == 1 && i == 0))
@@ -280,6 +341,13 @@ static void body (void) {
         }
         push_number (t);
         long r = call_int (k == 1 ? A : owner_ob (M[t].owner), k == 1 ? "rmh" : "rmn", 1);
+        if (k == 2 && shared) {
+          long probe[MAXE]; get_probe (probe);
+          vx_obs ("rmn(shared) by owner %c -> %ld", M[t].owner ? 'B' : 'A', r);
+          resolve_shared_remove (M[t].owner, r, probe, "C10:remove-by-name-wrong-time");
+          check_finds ("after op"); process_log (0);
+          continue;
+        }
         int findable = M[t].pending && !(k == 2 && M[t].fp);
         long want = findable ? M[t].due - T : -1;
         vx_obs ("%s #%d -> %ld", k == 1 ? "rmh" : "rmn", t, r);
@@ -311,6 +379,7 @@ int main (int argc, char **argv) {
   vx_init_args (argc, argv);
   depth = (int) vx_opt_long ("depth", 3);
   selftest = (int) vx_opt_long ("selftest", 0);
+  shared = (int) vx_opt_long ("shared", 0);
   hx_boot (mud, "", 0);
   vx_count_name (0, "histories_with_call_out");
   A = hx_load ("/co/t", 0);
@@ -326,5 +395,6 @@ int main (int argc, char **argv) {
   if (!B) { fprintf (stderr, "cannot clone\n"); return 2; }
   add_ref (B, "harness");
   T = hx_clock;
+  if (shared) { push_number (1); hx_apply (A, "set_shared", 1); }
   return vx_run (argc, argv, body);
 }
